@@ -26,6 +26,7 @@ def run(chk, replay=None):
     chk.coverage["rule"] = ("scripts over {clone i->j, wake i, wake_by_ref i, drop i, send-to-thread i, end-of-poll} on 3 slots + the borrowed cx.waker(), interpreted inside a "
                             "Future/Stream/Sink polled through an opaque CGlue object, remainder run after the poll on retained wakers; every script up to the exhaustive depth "
                             "(14-symbol alphabet), seeded random scripts with helper threads; half of the scripts end with the caller dropping its own handles first. "
+                            "wakers whose data pointer is a small integer incl. null; a yield-once future behind one, two and three opaque objects polled with the context passed through; "
                             "a caller's waker whose clone() differs from itself (borrowed waker upgrading to an owned one): retained handles must wake and release the clone; "
                             "a family of 2-3 handles sharing one foreign-side waker released at the same instant from as many threads (drop / wake by value in every pattern), thousands of rounds "
                             "natively and under Miri's scheduler with one seed per process. distinct = scripts in which at least one operation executed")
